@@ -828,6 +828,11 @@ class SymArr(np.ndarray):
                         r = _sb(r)
                     return r
         # default: numpy's own object loops
+        wh = kwargs.get("where", True)
+        if isinstance(wh, np.ndarray) and wh.dtype == object:
+            if _has_sym(wh):
+                raise ModelGap("ufunc where= with a symbolic mask is not modelled")
+            kwargs["where"] = wh.view(np.ndarray).astype(bool)
         args = [i.view(np.ndarray) if isinstance(i, SymArr) else i for i in inputs]
         if out is not None:
             kwargs["out"] = tuple(o.view(np.ndarray) if isinstance(o, SymArr) else o for o in out)
